@@ -34,6 +34,47 @@ func edgeOnlyFails(w *World, f *ssa.Function, b *ssa.BasicBlock) bool {
 	return hit == nil
 }
 
+// edgeOnlyFailsDeep: as edgeOnlyFails for an edge that may live in a helper carved out of root: the edge
+// only leads to failing returns of the helper, and at the helper's (single) call site the failing result only
+// leads to failing returns of the caller, up to root.
+func edgeOnlyFailsDeep(w *World, root *ssa.Function, succ *ssa.BasicBlock) bool {
+	h := succ.Parent()
+	if !edgeOnlyFails(w, h, succ) {
+		return false
+	}
+	for i := 0; h != root && i < 6; i++ {
+		site := transparentSite(h)
+		if site == nil {
+			return false
+		}
+		p := site.Parent()
+		var fail *ssa.BasicBlock
+		for _, ea := range condEdges(p) {
+			if ea.A.Kind == "nonnil" {
+				if c := atomCall(ea.A); c != nil && c == ssa.CallInstruction(site) {
+					fail = ea.E.From.Succs[ea.E.Succ]
+				}
+			}
+		}
+		if fail == nil {
+			// `return helper(x)`: the helper's result is the caller's
+			ok := false
+			for _, sp := range successPoints(w, p) {
+				if sp.viaCallee == h {
+					ok = true
+				}
+			}
+			if !ok {
+				return false
+			}
+		} else if !edgeOnlyFails(w, p, fail) {
+			return false
+		}
+		h = p
+	}
+	return h == root
+}
+
 func init() {
 	// ------------------------------------------------------------------ C11.R1
 	register("C11", "R1", "K1", "evidence becomes pending only if it is not pending, not committed and verified (votes reported by consensus are exempt from verify)", 9, func(c *Ctx) {
@@ -47,7 +88,14 @@ func init() {
 				guardCallOn("not already pending (keeps the size counter exact)", "false", "evidence#Pool.isPending", evV),
 				guardCallOn("not already committed", "false", "evidence#Pool.isCommitted", evV),
 			}
+			// evidence the pool builds itself from the votes consensus reported (also through a helper carved
+			// out of processConsensusBuffer)
 			fromConsensus := strings.Contains(w.expr(evV), "NewDuplicateVoteEvidence(")
+			if r := transparentRoot(outermost(s.Fn)); !fromConsensus && r.Name() == "processConsensusBuffer" && strings.HasSuffix(underMakeInterface(evV).Type().String(), "types.DuplicateVoteEvidence") {
+				if _, isParam := stripConv(evV).(*ssa.Parameter); !isParam {
+					fromConsensus = true
+				}
+			}
 			if !fromConsensus {
 				gs = append(gs, guardCallOn("verified against the state of its height", "nil", "evidence#Pool.verify", evV))
 			}
@@ -201,15 +249,15 @@ func init() {
 		}
 		fk := funcKey(f)
 		nC, nD := 0, 0
-		for _, ea := range condEdges(f) {
+		for _, ea := range condEdgesDeep(f) {
 			s := w.atomStr(ea.A)
 			if regexp.MustCompile(`^true\(\w+\.isCommitted\(`).MatchString(s) {
 				nC++
-				c.Check(edgeOnlyFails(w, f, ea.E.From.Succs[ea.E.Succ]), fk+" :: committed evidence is rejected", w.pos(f.Pos()), "the committed edge only leads to an error return", "evidence already committed can pass CheckEvidence")
+				c.Check(edgeOnlyFailsDeep(w, f, ea.E.From.Succs[ea.E.Succ]), fk+" :: committed evidence is rejected", w.pos(f.Pos()), "the committed edge only leads to an error return", "evidence already committed can pass CheckEvidence")
 			}
 			if regexp.MustCompile(`^true\(bytes\.Equal\(.*hashes.*\[.*\], .*hashes.*\[.*\]\)\)$`).MatchString(s) || regexp.MustCompile(`^true\(bytes\.Equal\(make\(\[\]\[\]byte.*\)\[.*\], (make\(\[\]\[\]byte.*\)\[.*\]|.*\.Hash\(\))\)\)$`).MatchString(s) {
 				nD++
-				c.Check(edgeOnlyFails(w, f, ea.E.From.Succs[ea.E.Succ]), fk+" :: repeated evidence in one block is rejected", w.pos(f.Pos()), "the equal-hash edge only leads to an error return", "the same evidence twice in a block can pass CheckEvidence")
+				c.Check(edgeOnlyFailsDeep(w, f, ea.E.From.Succs[ea.E.Succ]), fk+" :: repeated evidence in one block is rejected", w.pos(f.Pos()), "the equal-hash edge only leads to an error return", "the same evidence twice in a block can pass CheckEvidence")
 			}
 		}
 		c.Check(nC >= 1, fk+" :: checks the committed marker", w.pos(f.Pos()), "isCommitted consulted", "CheckEvidence no longer consults the committed marker")
@@ -362,4 +410,20 @@ func init() {
 		}
 		c.Check(n == 2, fk+" :: lunatic and equivocation branches found", w.pos(f.Pos()), "2 appends", fmt.Sprintf("%d appends", n))
 	})
+}
+
+func underMakeInterface(v ssa.Value) ssa.Value {
+	for i := 0; i < 4; i++ {
+		switch x := v.(type) {
+		case *ssa.MakeInterface:
+			v = x.X
+		case *ssa.ChangeInterface:
+			v = x.X
+		case *ssa.ChangeType:
+			v = x.X
+		default:
+			return v
+		}
+	}
+	return v
 }
